@@ -38,7 +38,7 @@ CASE_TIMEOUT = {'quick': 200, 'thorough': 400}
 
 def plan(tier, seed):
     n = 128 if tier == 'quick' else 2400
-    return [{'idx': i, 'kind': ['mesh', 'mesh', 'sat', 'mesh'][i % 4]} for i in range(n)]
+    return [{'idx': i, 'kind': ['mesh', 'mesh', 'sat', 'mesh', 'p2p', 'mesh', 'sat', 'mesh'][i % 8]} for i in range(n)]
 
 
 def db(x):
@@ -391,6 +391,8 @@ def build_inputs(rng, kind):
         for e in ej['Edfa']:
             if e['type_variety'] in ('std_medium_gain', 'std_low_gain', 'std_high_gain') and rng.random() < 0.6:
                 e['out_voa_auto'] = True
+    if kind == 'p2p':
+        return ej, G.gen_p2p(rng, lumped=rng.random() < 0.2)
     tj, _ = G.gen_topology(rng, max_sites=4, max_spans=3, per_degree=rng.random() < 0.4, lumped=rng.random() < 0.2,
                            amp_varieties=['std_medium_gain', 'std_low_gain', 'std_high_gain', 'std_fixed_gain',
                                           'high_detail_model_example', 'operator_model_example'], max_km=140)
